@@ -48,6 +48,12 @@ CLAIMED = {
          TECH + " — Verus on Voronoi::finalize / VoronoiCell::finalize / VoronoiFace accessors sliced from the real source + E2 contract on the neighbour_ids closure"),
 }
 NA = {
+ "C01": "statement is about the composition (r-tree order -> security radius -> float clipping -> tetrahedral integration) agreeing with a brute-force Voronoi cell 'up to rounding'. No contract language available here can state and discharge that: Verus has no float semantics, the real-idealised VC generator (E2) covers straight-line code only (not the looping, branching builder over a dynamic vertex set), and Kani/CBMC does not finish symbolic execution of ConvexCell::build / from_convex_cell even on one concrete cube (28 min, measured). The mechanisms it rests on are under contract piecewise in C04, C05, C10, C16, C18; the composition itself is not decided by this family of technique",
+ "C02": "a global sum of floating-point volumes over all cells equals the box measure up to rounding: a whole-tessellation numerical claim that needs C01 for every cell plus a rounding analysis; no per-function contract expresses it. The axis-normalisation mechanism it names is proved under C08, the initial-cell mechanism under C04/C06",
+ "C09": "schedule independence of the rayon parallel loop: Kani has no thread support, Verus would need its own permission types on code that is rayon's (external) and the extraction subset excludes rayon; what holds (closures capture only shared immutable borrows, indexed collect preserves order) is Rust's type system plus rayon's documentation, not an obligation a verifier here can discharge",
+ "C14": "exactness of the signed tetrahedral decomposition for every convex cell and 'base triangles lie in the face plane' are theorems of polytope geometry evaluated in floating point and depend on global convexity of the cell (C01); 'for every downstream implementation of the integral traits' quantifies over code that does not exist in /repo. No contract within reach states it",
+ "C17": "best-first traversal order and completeness over rstar's tree needs a specification of rstar's node/envelope invariants and of BinaryHeap (external, unverified code) and the traversal is iterator/pattern-heavy code outside the extraction subset; CBMC on symbolic bulk-loaded trees with 27 shifted float distances is intractable. The two mechanisms that are per-function (shift mapping, image enumeration) are proved under C06/C03",
+ "C20": "Space::knn's ring-pruning argument and Welzl minimality are algorithmic floating-point proofs over unbounded loops and recursion in auxiliary code; no contract could be brought within verifier reach in the time (float distances in Verus are uninterpreted; Kani cannot close the loops)",
 }
 def main():
     hooks = subprocess.run(["git", "-C", "/repo", "log", "--format=%h %s"], capture_output=True, text=True).stdout.splitlines()
